@@ -481,6 +481,8 @@ fn num() -> BoxedStrategy<f64> {
         3 => (-999i32..=999).prop_map(|k| k as f64 / 100.0),
         1 => nice().prop_map(|x| x * 1e6),
         1 => nice().prop_map(|x| x * 1e-5),
+        // far below f64::EPSILON but not zero (cancellation residues such as 0.1 + 0.2 - 0.3), and huge
+        1 => prop_oneof![Just(5.551115123125783e-17), Just(-5.551115123125783e-17), Just(2f64.powi(-60)), Just(-1e-200), Just(1e15), Just(-3e20)],
         1 => Just(-0.0),
         2 => Just(0.0),
         1 => (-99999i32..=99999).prop_map(|k| k as f64 / 1000.0 + 0.0005),
@@ -505,7 +507,7 @@ impl Property for C19 {
         "C19"
     }
     fn rule(&self) -> String {
-        "matrices/biases (1..7 columns, 1..6 rows) mixing dyadic numbers, decimals, 1e6 and 1e-5 magnitudes, half-way decimals, +0.0 and -0.0, zero rows; all FormatOptions combinations (sort_coefficients in {0,1,n,n+1,5}, the three booleans, skip_axes/skip_rows as arbitrary (Bound,Bound) pairs incl. empty and unbounded); precision default or 0..8; trees (total/partial, arena layouts with holes) for Display and Dot. The output is parsed back by a recursive-descent parser of the grammar and compared with the stored object: index/coefficient attachment, printed value within half a unit of the printed precision, sign, inequality direction and bias, normalisation by max |coeff|, ⊤/⊥, simplify_zero, ellipsis <=> something omitted and at the right place, sorted order and bracketing of omitted magnitudes, one statement per node and per edge with the node's own function under the default options. Non-trivial = sorting/skipping/normalisation actually changed the output (dimension >= 2), or a tree with >= 3 nodes; distinct = distinct serialised cases".into()
+        "matrices/biases (1..7 columns, 1..6 rows) mixing dyadic numbers, decimals, 1e6 and 1e-5 magnitudes, residues of 5.55e-17 / 2^-60 / 1e-200 and values of 1e15 / 3e20, half-way decimals, +0.0 and -0.0, zero rows; all FormatOptions combinations (sort_coefficients in {0,1,n,n+1,5}, the three booleans, skip_axes/skip_rows as arbitrary (Bound,Bound) pairs incl. empty and unbounded); precision default or 0..8; trees (total/partial, arena layouts with holes) for Display and Dot. The output is parsed back by a recursive-descent parser of the grammar and compared with the stored object: index/coefficient attachment, printed value within half a unit of the printed precision, sign, inequality direction and bias, normalisation by max |coeff|, ⊤/⊥, simplify_zero, ellipsis <=> something omitted and at the right place, sorted order and bracketing of omitted magnitudes, one statement per node and per edge with the node's own function under the default options. Non-trivial = sorting/skipping/normalisation actually changed the output (dimension >= 2), or a tree with >= 3 nodes; distinct = distinct serialised cases".into()
     }
     fn assumptions(&self) -> Vec<String> {
         vec!["DOT shape attributes are outside the statement (and pinned by test_dot_str)".into(), "ties in the magnitude sort may appear in any order (sort_unstable)".into(), "skip ranges are single intervals (Bound, Bound)".into()]
